@@ -18,7 +18,50 @@ static const fc_fmt_t fc_fmts[] = {
     { "x4b4g4r4", PIXMAN_x4b4g4r4 }, { "a8", PIXMAN_a8 }, { "r3g3b2", PIXMAN_r3g3b2 }, { "a2r2g2b2", PIXMAN_a2r2g2b2 },
     { "x4a4", PIXMAN_x4a4 }, { "a4", PIXMAN_a4 }, { "r1g2b1", PIXMAN_r1g2b1 }, { "a1r1g1b1", PIXMAN_a1r1g1b1 },
     { "a1", PIXMAN_a1 }, { "rgba_float", PIXMAN_rgba_float }, { "rgb_float", PIXMAN_rgb_float },
+    /* the rest of pixman.h's list (x4c4 / x4g4 have the codes of c8 / g8; yuy2 / yv12 are not destinations) */
+    { "a8r8g8b8_sRGB", PIXMAN_a8r8g8b8_sRGB }, { "a1b5g5r5", PIXMAN_a1b5g5r5 }, { "x1b5g5r5", PIXMAN_x1b5g5r5 },
+    { "x4r4g4b4", PIXMAN_x4r4g4b4 }, { "a4b4g4r4", PIXMAN_a4b4g4r4 }, { "b2g3r3", PIXMAN_b2g3r3 },
+    { "a2b2g2r2", PIXMAN_a2b2g2r2 }, { "b1g2r1", PIXMAN_b1g2r1 }, { "a1b1g1r1", PIXMAN_a1b1g1r1 },
+    { "c8", PIXMAN_c8 }, { "g8", PIXMAN_g8 }, { "c4", PIXMAN_c4 }, { "g4", PIXMAN_g4 }, { "g1", PIXMAN_g1 },
 };
+
+/* a palette for the indexed / gray formats: any fixed total mapping will do (the drivers compare two routes of the
+ * same library, TLC the bits) */
+static const pixman_indexed_t *
+fc_palette (pixman_format_code_t code)
+{
+    static pixman_indexed_t color, gray[9];
+    static int have_color, have_gray[9];
+    int bpp = PIXMAN_FORMAT_BPP (code), i;
+    if (PIXMAN_FORMAT_TYPE (code) == PIXMAN_TYPE_COLOR)
+    {
+	if (!have_color)
+	{
+	    color.color = 1;
+	    for (i = 0; i < 256; i++)
+		color.rgba[i] = 0xff000000u | ((uint32_t)i * 0x9e3779u & 0xffffff);
+	    for (i = 0; i < 32768; i++)
+		color.ent[i] = (uint8_t)(((uint32_t)i * 2654435761u) >> 20);
+	    have_color = 1;
+	}
+	return &color;
+    }
+    if (!have_gray[bpp])
+    {
+	pixman_indexed_t *g = &gray[bpp];
+	int n = 1 << bpp;
+	g->color = 0;
+	for (i = 0; i < 256; i++)
+	{
+	    uint32_t l = (uint32_t)(i % n) * 255 / (n - 1);
+	    g->rgba[i] = 0xff000000u | l << 16 | l << 8 | l;
+	}
+	for (i = 0; i < 32768; i++)
+	    g->ent[i] = (uint8_t)(i >> (15 - bpp));
+	have_gray[bpp] = 1;
+    }
+    return &gray[bpp];
+}
 
 static pixman_format_code_t
 fc_format (const char *name)
@@ -115,6 +158,8 @@ fc_store_image (fc_store_t *s, const char *fmt, int w, int h, int stride, int gb
 	fprintf (stderr, "create_bits failed (%s %dx%d stride %d)\n", fmt, w, h, stride);
 	exit (3);
     }
+    if (PIXMAN_FORMAT_TYPE (fc_format (fmt)) == PIXMAN_TYPE_COLOR || PIXMAN_FORMAT_TYPE (fc_format (fmt)) == PIXMAN_TYPE_GRAY)
+	pixman_image_set_indexed (s->img, fc_palette (fc_format (fmt)));
 }
 
 /* the clip state given to an image, remembered for the Setup event */
@@ -147,6 +192,36 @@ fc_set_clip (pixman_image_t *img, fc_clipstate_t *cs, int n, const int *v)
 	pixman_region32_init_rects (&r, b, n);
 	pixman_image_set_clip_region32 (img, &r);
 	pixman_region32_fini (&r);
+	free (b);
+	cs->hc = 1;
+	cs->nclip = n;
+	memcpy (cs->clip, v, sizeof (int) * 4 * n);
+    }
+}
+
+/* the same through the 16-bit setter pixman_image_set_clip_region (coordinates must fit int16) */
+static void
+fc_set_clip16 (pixman_image_t *img, fc_clipstate_t *cs, int n, const int *v)
+{
+    if (n < 0)
+    {
+	pixman_image_set_clip_region (img, NULL);
+	cs->hc = 0;
+	cs->nclip = 0;
+    }
+    else
+    {
+	pixman_region16_t r;
+	pixman_box16_t *b = malloc (sizeof (pixman_box16_t) * (n ? n : 1));
+	int i;
+	for (i = 0; i < n; i++)
+	{
+	    b[i].x1 = (int16_t)v[4 * i]; b[i].y1 = (int16_t)v[4 * i + 1];
+	    b[i].x2 = (int16_t)v[4 * i + 2]; b[i].y2 = (int16_t)v[4 * i + 3];
+	}
+	pixman_region_init_rects (&r, b, n);
+	pixman_image_set_clip_region (img, &r);
+	pixman_region_fini (&r);
 	free (b);
 	cs->hc = 1;
 	cs->nclip = n;
